@@ -27,7 +27,9 @@ def out_cols(q, ctx):
     names = []
     for it in q.items:
         if isinstance(it.e, Star): return None
-        names.append((it.alias or it.e.name).lower())
+        e = it.e
+        if it.alias is None and isinstance(e, Cast) and isinstance(e.e, Col): e = e.e  # col::type keeps the column's name
+        names.append((it.alias or e.name).lower())
     return names
 
 def rel_cols(f, ctx):
@@ -113,23 +115,34 @@ def select(draw, ctx, depth, ctes, nitems=None, nojoin=False):
         groups.append(FromGroup(first, tuple(joins)))
         if shape.startswith("mixed"):  # a comma item AFTER the joined group
             f2 = draw(from_item(ctx, depth, ctes, bare_used, inner_nojoin)); items_in_scope.append(f2); groups.append(FromGroup(f2, ()))
-    names = [(ref_name(f), rel_cols(f, ctx)) for f in items_in_scope]
+    names_all = [(ref_name(f), rel_cols(f, ctx)) for f in items_in_scope]
+    # a named column cannot be traced through a subquery that only selects '*' (only the star is propagated): such relations
+    # are referenced through stars only, never through named columns
+    names = [(ref_name(f), rel_cols(f, ctx)) for f in items_in_scope if isinstance(f, T) or rel_cols(f, ctx) is not None]
     all_base = all(isinstance(f, T) for f in items_in_scope)
-    unq_ok = ("any", names[0][1]) if len(items_in_scope) == 1 else (("pool", [ctx.unq(), ctx.unq()]) if all_base else None)
+    if len(items_in_scope) == 1:
+        unq_ok = ("any", names[0][1]) if names else None
+    else:
+        unq_ok = ("pool", [ctx.unq(), ctx.unq()]) if all_base else None
     star_ok = (len(items_in_scope) == 1 and not isinstance(items_in_scope[0], CteRef)) or all_base
     n = nitems or draw(st.integers(1, 3))
-    if nitems is None and star_ok and draw(st.integers(0, 5)) == 0:
-        items = (Item(Star(draw(st.sampled_from([None] + [n for n, _ in names])))),)
+    if nitems is None and star_ok and (draw(st.integers(0, 5)) == 0 or not names):
+        items = (Item(Star(draw(st.sampled_from([None] + [n for n, _ in names_all])))),)
+    elif not names:
+        items = tuple(Item(Lit(str(i + 1)), f"o{i+1}", True) for i in range(n))
     else:
         items = []; seen = set()
         for i in range(n):
             e = draw(expr(names, draw(st.integers(0, 2)), unq_ok))
             alias = f"o{i+1}" if (not isinstance(e, Col) or draw(st.booleans())) else None
             nm = (alias or e.name).lower()
-            if nm in seen: alias = f"o{i+1}"; nm = alias
+            if nm in seen or nm in {f"o{j+1}" for j in range(i + 1, n)}:  # output names pairwise distinct, also w.r.t. later aliases
+                alias = f"o{i+1}"; nm = alias
+            if nm in seen: alias = f"p{i+1}"; nm = alias
             seen.add(nm)
             items.append(Item(e, alias, draw(st.booleans())))
         items = tuple(items)
+    if not names: names = [(n_, COLS) for n_, _ in names_all]  # predicates (no lineage) may still name columns
     where = None
     w = draw(st.integers(0, 5))
     if w == 1: where = Cmp(draw(expr(names, 0, unq_ok)), "=", Lit("1"))
